@@ -17,7 +17,7 @@ PROPS = {
               "truncated one. Distinct = distinct hash of the full case."),
         assumptions=["refctl.ParseTLV8 implements the specification's reassembly rule (same type and previous fragment 255 bytes)",
                      "an empty value may be encoded as nothing or as one zero-length item"],
-        essential_classes=["writer:value>255", "writer:repeated-tag", "writer:len-multiple-of-255", "parser:rejected-truncated", "parser:accepted"],
+        essential_classes=["writer:value>255", "writer:repeated-tag", "writer:len-multiple-of-255", "writer:serialised-between-sets", "parser:rejected-truncated", "parser:accepted"],
         jobs=[
             dict(test="TestC16Exhaustive", kind="plain", shards={Q: 2, T: 8}),
             dict(test="TestC16Prop", kind="rapid", checks={Q: 1500, T: 60000}, shards=10),
@@ -35,11 +35,13 @@ PROPS = {
         level_note="Trusted: refctl framing code (cross-checked against x/crypto hkdf and chacha20poly1305 primitives). Counters above ~100 are not reached; (0,nil) reads are not generated.",
         rule=("payload lengths enumerated (quick: boundary set 0..40, 250..260, 1000..1050, 2040..2060, 3070..3075, 4090..4097; thorough: 0..4097) x 6 reader modes, "
               "plus rapid sequences of 1..6 messages with lengths up to 70000, random secrets and chunkings. Non-trivial: at least one payload longer than 0; distinct by (secret, message list)."),
-        assumptions=["source readers follow the io.Reader contract and never return (0,nil)"],
-        essential_classes=["len%1024=0/onebyte", "len%1024=0/whole", "len>1024/chunks", "len=0/whole", "multi-message", "len%1024=1/with-eof", "high-counter"],
+        assumptions=["source readers follow the io.Reader contract ((0,nil) reads included: they are not end of input)"],
+        essential_classes=["len%1024=0/onebyte", "len%1024=0/whole", "len>1024/chunks", "len=0/whole", "multi-message", "len%1024=1/with-eof", "high-counter", "duplex", "len>1024/chunks-with-empty-reads"],
         exhaustive=False,
         jobs=[
             dict(test="TestC06HighCounters", kind="plain"),
+            dict(test="TestC06Duplex", kind="plain", shards={Q: 2, T: 8}, env={"VERIF_C06_REPS": {Q: 30, T: 300}}),
+            dict(test="TestC06Duplex", kind="plain", race=True, tiers=[T], shards=2, env={"VERIF_C06_REPS": {T: 100}}),
             dict(test="TestC06Exhaustive", kind="plain", shards={Q: 4, T: 16}),
             dict(test="TestC06Prop", kind="rapid", checks={Q: 400, T: 12000}, shards=12),
         ],
@@ -122,7 +124,7 @@ PROPS = {
         rule=("rapid sequences over all constructors; values from hx.JSONValue (null, bool, special and random finite floats, special and random strings, arrays, objects, depth<=2) and Go-native numbers for local updates. "
               "Non-trivial: sequence containing at least one value whose JSON type differs from the format's. Distinct by (constructor, sequence)."),
         assumptions=["numbers supplied are finite (NaN/Inf only occur as strings)", "typed getters are only called on readable characteristics"],
-        essential_classes=["same-composite-twice", "format:string", "format:float", "format:uint8", "format:bool", "format:tlv8", "format:int32", "write-only"],
+        essential_classes=["same-composite-twice", "format:string", "format:float", "format:uint8", "format:bool", "format:tlv8", "format:int32", "write-only", "bounds-redeclared"],
         jobs=[
             dict(test="TestC12Matrix", kind="plain", shards=4),
             dict(test="TestC12Prop", kind="rapid", checks={Q: 1500, T: 60000}, shards=12),
@@ -153,7 +155,7 @@ PROPS = {
         level_note="Trusted: the JSON shape checker. Accessories are completed before they are added to a container (as the library's own transport does). The wire-level fetch of /accessories is covered by C09.",
         rule=("rapid compositions; non-trivial: at least 2 accessories and at least 1 extra service. Distinct by composition. Plus one enumerated case per accessory constructor and per service constructor."),
         assumptions=["an accessory is added to exactly one container, after all its services have been added"],
-        essential_classes=["ids:mixed", "ids:explicit", "ids:auto", "explicit-id-collision", "linked-services", "accessories>=20", "every-accessory-constructor", "every-service-constructor", "service-without-characteristics", "custom-service"],
+        essential_classes=["ids:mixed", "ids:explicit", "ids:auto", "explicit-id-collision", "linked-services", "accessories>=20", "every-accessory-constructor", "every-service-constructor", "service-without-characteristics", "custom-service", "remove-accessory"],
         jobs=[
             dict(test="TestC14EveryConstructor", kind="plain"),
             dict(test="TestC14Prop", kind="rapid", checks={Q: 300, T: 10000}, shards=16),
@@ -168,8 +170,8 @@ PROPS = {
         level_note="Trusted: refctl sealer, the scripted conn. Zero-length frames are not sent (a conformant sender has no reason to). 'Waiting for the network' is observed as consuming a scripted idle period.",
         rule=("rapid scenarios: 1..4 messages with lengths from {1..40, 512, 1023..1025, 2047..2049, 3072, 4095..4097, 8192, 1..5000}, optional arbitrary frame sizes, segmentation (per frame / single segment / up to 8 arbitrary cuts), up to 4 idle periods, 1..4 caller buffer sizes from {1,2,512,1024,4096,8192,random}. "
               "Non-trivial: some frame split across segments, or frames sharing a segment, or an idle period inside a frame, or a message length that is a multiple of 1024 or of the caller buffer. Distinct by scenario."),
-        assumptions=["the peer sends well-formed frames of 1..1024 plaintext bytes and stays connected"],
-        essential_classes=["split-frame", "coalesced", "timeout-inside-frame", "len-multiple-of-1024", "len-multiple-of-buffer", "multi-frame-message", "regress"],
+        assumptions=["the peer sends well-formed frames of 0..1024 plaintext bytes and stays connected"],
+        essential_classes=["split-frame", "coalesced", "timeout-inside-frame", "len-multiple-of-1024", "len-multiple-of-buffer", "multi-frame-message", "regress", "empty-frame", "ciphertext-multiple-of-4096"],
         jobs=[
             dict(test="TestC07Regress", kind="plain"),
             dict(test="TestC07Splits", kind="plain", shards={Q: 4, T: 16}),
@@ -220,7 +222,7 @@ PROPS = {
               "1..6 encrypted requests (PUT of exact total size, GET, /accessories of a bridge with 0..12 extra accessories, GET with up to 1500 ids), optional short outgoing frames; 20% of the cases use a wrong code. "
               "Non-trivial: reached at least one encrypted request/response, or an M4 error in wrong-code mode. Distinct by (code, id, key seed, request list)."),
         assumptions=["the setup code is used as SRP password in its XXX-XX-XXX form"],
-        essential_classes={Q: ["reached-encrypted-exchange", "wrong-code", "regress", "request=1024"], T: ["reached-encrypted-exchange", "wrong-code", "multi-frame-response", "request=1024", "request=k*1024", "request>=5000", "verify-on-new-connection", "verify-on-setup-connection", "storage:pre-populated", "controller-sends-short-frames"]},
+        essential_classes={Q: ["reached-encrypted-exchange", "wrong-code", "regress", "request=1024", "wrong-then-right-on-same-connection", "requests-in-two-segments"], T: ["reached-encrypted-exchange", "wrong-code", "multi-frame-response", "request=1024", "request=k*1024", "request>=5000", "verify-on-new-connection", "verify-on-setup-connection", "storage:pre-populated", "controller-sends-short-frames"]},
         jobs=[
             dict(test="TestC04Regress", kind="plain"),
             dict(test="TestC04SwitchOrder", kind="plain"),
@@ -237,7 +239,7 @@ PROPS = {
         rule=("rapid histories of 1..12 messages over 32 message kinds (6 start, 11 verify, 12 key-exchange, 3 other variants) for random setup code, controller id and key seed. "
               "Non-trivial: at least one key-exchange message sent after at least one verify message on the same connection. Distinct by (code, id, seed, history)."),
         assumptions=["the attacker does not know the setup code; forged keys are derived only from public values"],
-        essential_classes=["exchange-genuine:accepted<-verify-right", "exchange-zero-key<-verify-A-zero", "exchange-zero-key<-verify-right", "exchange-replayed<-verify-right", "exchange-second-identity<-verify-right", "two-connections", "regress"],
+        essential_classes=["exchange-genuine:accepted<-verify-right", "exchange-zero-key<-verify-A-zero", "exchange-zero-key<-verify-right", "exchange-replayed<-verify-right", "exchange-second-identity<-verify-right", "exchange-empty-secret<-verify-A-zero-public-proof", "two-connections", "regress"],
         jobs=[
             dict(test="TestC02Regress", kind="plain"),
             dict(test="TestC02Prop", kind="rapid", checks={Q: 60, T: 2500}, shards=16),
@@ -251,7 +253,7 @@ PROPS = {
         level_note="Trusted: refctl's X25519/HKDF/Ed25519 usage; the observation that session.Decrypter() is non-nil exactly when an encrypted session is installed. Handler panics are counted (C13 judges them). The wire-level consequence (ciphertext under attacker-derived keys is not served) is exercised by C01.",
         rule=("rapid histories of 1..10 messages over 29 message kinds, random key seeds, 0..3 stored controllers, 1..2 connections, state-biased generator. Non-trivial: at least one finish variant sent after an accepted start. Distinct by (seed, stored, history)."),
         assumptions=["the adversary owns no long-term secret key of a stored controller"],
-        essential_classes=["finish-genuine:verified/stored=1", "finish-wrong-key/stored=1", "finish-accessory-name/stored=0", "finish-seal-zero-key(no-exchange)/stored=1", "finish-replayed/stored=2", "start-keylen-31", "regress", "replay-whole-exchange/stored=1", "finish-genuine-late(after-ended-exchange)/stored=1"],
+        essential_classes=["finish-genuine:verified/stored=1", "finish-wrong-key/stored=1", "finish-accessory-name/stored=0", "finish-seal-zero-key(no-exchange)/stored=1", "finish-replayed/stored=2", "start-keylen-31", "regress", "replay-whole-exchange/stored=1", "finish-genuine-late(after-ended-exchange)/stored=1", "finish-retired-key/stored=1", "rekey-stored/stored=2"],
         jobs=[
             dict(test="TestC03Regress", kind="plain"),
             dict(test="TestC03Prop", kind="rapid", checks={Q: 1000, T: 30000}, shards=16),
@@ -283,7 +285,7 @@ PROPS = {
         level_note="Trusted: refctl; the canary/keyword disclosure scan. /identify is unprotected by specification and not treated as protected. Reuse of a closed verified connection's source port by a new connection is not generated. For sealed requests the harness waits 120 ms of silence to conclude that nothing was served (a miss, never an alarm, if the accessory answered later).",
         rule=("rapid state machine, about 30 actions per history over 11 action kinds; protected requests drawn from 12 request shapes. Non-trivial: at least one attacker request to a protected endpoint issued while the legitimate controller is verified on another connection. Distinct by history."),
         assumptions=["the attacker knows neither the setup code nor a paired long-term secret key"],
-        essential_classes=["/accessories/plaintext", "/characteristics:get/plaintext", "/characteristics:put/plaintext", "/characteristics:subscribe/plaintext", "/pairings:add/plaintext", "/pairings:remove/plaintext", "/resource/plaintext", "legit-served", "app-change", "pair-verify-forged-finish", "pair-setup-fragment", "replayed-sniffed-verify"],
+        essential_classes=["/accessories/plaintext", "/characteristics:get/plaintext", "/characteristics:put/plaintext", "/characteristics:subscribe/plaintext", "/pairings:add/plaintext", "/pairings:remove/plaintext", "/resource/plaintext", "legit-served", "app-change", "pair-verify-forged-finish", "pair-setup-fragment", "replayed-sniffed-verify", "flood-during-legit-verify"],
         jobs=[
             dict(test="TestC01Prop", kind="rapid", checks={Q: 8, T: 1200}, shards=16),
         ],
@@ -297,10 +299,11 @@ PROPS = {
         rule=("rapid cases: accessories in {1,2,4,11,41,120}, 1..6 characteristics per service, constructor window offset drawn; 3..15 actions from {set+GET one id, set several + GET many ids, set several + GET /accessories, PUT}. "
               "Non-trivial: a value different from the default was set or written, or the id list contained a missing id, or the response spanned several frames. Distinct by (database shape, action history). coverage.extra counts how often each constructor's characteristic was set."),
         assumptions=["application-side values are inside the characteristic's declared bounds"],
-        essential_classes={Q: ["format:bool/set", "format:float/set", "format:string/set", "format:tlv8/set", "format:uint8/put", "missing-id", "write-only-id", "accessories", "multi-frame-response"],
+        essential_classes={Q: ["format:bool/set", "format:float/set", "format:string/set", "format:tlv8/set", "format:uint8/put", "missing-id", "write-only-id", "accessories", "multi-frame-response", "concurrent-controllers"],
                            T: ["format:bool/set", "format:float/set", "format:string/set", "format:tlv8/set", "format:uint8/put", "format:string/put", "missing-id", "write-only-id", "repeated-id", "accessories", "multi-frame-response", "response>100k", "accessories=120"]},
         jobs=[
-            dict(test="TestC09Prop", kind="rapid", checks={Q: 60, T: 2500}, shards=16),
+            dict(test="TestC09Prop", kind="rapid", checks={Q: 60, T: 2500}, shards=14),
+            dict(test="TestC09Concurrent", kind="plain", shards={Q: 2, T: 8}, env={"VERIF_C09_REPS": {Q: 2, T: 12}}),
         ],
     ),
     "C10": dict(
@@ -311,10 +314,10 @@ PROPS = {
         level_note="Trusted: refctl's event reader; the fact that hc writes notifications synchronously inside SetValue / the PUT handler, which makes the synchronising request sufficient without sleeps. ProgrammableSwitchEvent (specified to notify on equal values) is not part of the test bed. Event entries are counted, not messages (batching is allowed).",
         rule=("rapid state machine (about 30 actions) over 5 action kinds, 2..4 controllers, 7 characteristics. Non-trivial: a history with a change while at least 2 connections are subscribed and a change after an unsubscribe or a close. Distinct by history."),
         assumptions=["values written stay inside bounds so that the model needs no clamping"],
-        essential_classes=["event-delivered", "change-with>=2-subscribers", "change-after-unsubscribe-or-close", "subscribe-non-ev-rejected", "same-value-update", "originator-subscribed", "reconnect", "write-with-ev", "close-with-subscriptions", "write-beyond-bounds", "same-iid-on-two-accessories-asymmetric"],
+        essential_classes=["event-delivered", "change-with>=2-subscribers", "change-after-unsubscribe-or-close", "subscribe-non-ev-rejected", "same-value-update", "originator-subscribed", "reconnect", "write-with-ev", "close-with-subscriptions", "write-beyond-bounds", "same-iid-on-two-accessories-asymmetric", "reset-then-change"],
         jobs=[
             dict(test="TestC10Regress", kind="plain"),
-            dict(test="TestC10Prop", kind="rapid", checks={Q: 40, T: 2500}, shards=16, steps=60),
+            dict(test="TestC10Prop", kind="rapid", checks={Q: 40, T: 2500}, shards=16, steps=80),
         ],
     ),
     "C20": dict(
